@@ -127,10 +127,8 @@ func runPint(t *testing.T, env simEnv, record bool) pintRun {
 	// many pint invocations in one process, not something a schedule decides.
 	// Two GC cycles empty every sync.Pool; GC stays off during the run so that
 	// pool contents are a function of program order only.
-	runtime.GC()
-	runtime.GC()
-	oldGC := debug.SetGCPercent(-1)
-	defer debug.SetGCPercent(oldGC)
+	normalisePools()
+	defer restoreGC()
 	bubble := detsim.Bubble
 	if env.NoBubble {
 		bubble = func(_ *testing.T, body func()) string { body(); return "" }
@@ -190,6 +188,17 @@ func runPint(t *testing.T, env simEnv, record bool) pintRun {
 	}
 	return res
 }
+
+var savedGC = 100
+
+// normalisePools: two GC cycles empty every sync.Pool; GC then stays off for the run.
+func normalisePools() {
+	runtime.GC()
+	runtime.GC()
+	savedGC = debug.SetGCPercent(-1)
+}
+
+func restoreGC() { debug.SetGCPercent(savedGC) }
 
 // constDB builds a database whose answers do not depend on the exact instant
 // of the query: every series has constant values and spans far beyond `now`
